@@ -1,6 +1,7 @@
 (* C05 — criteria mean their implication closure, nothing more, however written. *)
 Require Import Base Extracted Criteria Search AuditGraph.
-Require Import CriteriaProofs AuditGraphProofs.
+Require Import DepGraph Resolve.
+Require Import CriteriaProofs AuditGraphProofs RewriteProofs.
 Local Open Scope N_scope.
 
 (* X counts for X and everything X transitively implies, and for nothing else:
@@ -53,6 +54,47 @@ Theorem C05_edges_use_closure : forall t s e, In e (all_edges t s) ->
   (exists l, fe_crit e = from_list t l) \/ fe_crit e = all_criteria t.
 Proof. exact edge_crit_form. Qed.
 
+(* VERDICT LEVEL: rewrite every criteria list of every audit, wildcard audit, trusted entry and
+   exemption in the store (violation entries keep theirs) to ANY list with the same meaning, and the
+   resolver's whole report — verdict, failure sets, classification, chosen paths — is identical,
+   for every graph and store. *)
+Theorem C05_verdict_invariant_under_rewriting : forall t (rw : list N -> list N) inp s,
+  (forall l, from_list t (rw l) = from_list t l) -> st_criteria s = t ->
+  resolve inp (rw_store rw s) = resolve inp s.
+Proof. intros t rw inp s H Ht. exact (resolve_rw t rw H inp s Ht). Qed.
+
+(* the three rewritings the property names *)
+Definition in_table (t : ctable) (l : list N) : bool := forallb (fun c => N.ltb c (N.of_nat (ct_len t))) l.
+Definition rw_reorder_duplicate (l : list N) : list N := rev l ++ l.
+Definition rw_closure (t : ctable) (l : list N) : list N :=
+  if in_table t l then cs_indices (ct_len t) (from_list t l) else l.
+Definition rw_minimal (t : ctable) (l : list N) : list N :=
+  if in_table t l then minimal_indices t (from_list t l) else l.
+
+Theorem C05_verdict_invariant_reorder_duplicate : forall inp s,
+  resolve inp (rw_store rw_reorder_duplicate s) = resolve inp s.
+Proof.
+  intros inp s. apply (C05_verdict_invariant_under_rewriting (st_criteria s)); [|reflexivity].
+  intros l. apply from_list_ext. intros c. unfold rw_reorder_duplicate. rewrite in_app_iff, <- in_rev. tauto.
+Qed.
+Theorem C05_verdict_invariant_closure : forall inp s,
+  resolve inp (rw_store (rw_closure (st_criteria s)) s) = resolve inp s.
+Proof.
+  intros inp s. apply (C05_verdict_invariant_under_rewriting (st_criteria s)); [|reflexivity].
+  intros l. unfold rw_closure. destruct (in_table (st_criteria s) l) eqn:E; [|reflexivity].
+  apply from_list_of_closure. intros c. rewrite in_cs_indices. split; [tauto|]. intros H. split; [|exact H].
+  apply (from_list_bounded (st_criteria s) l); [|exact H].
+  intros c0 Hc0. unfold in_table in E. rewrite forallb_forall in E. apply N.ltb_lt. apply E. exact Hc0.
+Qed.
+Theorem C05_verdict_invariant_minimal : forall inp s, ct_acyclic (st_criteria s) = true ->
+  resolve inp (rw_store (rw_minimal (st_criteria s)) s) = resolve inp s.
+Proof.
+  intros inp s Ha. apply (C05_verdict_invariant_under_rewriting (st_criteria s)); [|reflexivity].
+  intros l. unfold rw_minimal. destruct (in_table (st_criteria s) l) eqn:E; [|reflexivity].
+  apply C05_replace_by_minimal; [exact Ha|].
+  intros c0 Hc0. unfold in_table in E. rewrite forallb_forall in E. apply N.ltb_lt. apply E. exact Hc0.
+Qed.
+
 (* non-vacuity: in the table [crit2 => safe-to-deploy], [2] means {0,1,2}, and
    [2;1;0;2] (its closure, reordered, duplicated) means the same; its minimal
    generating set is [2] *)
@@ -68,3 +110,7 @@ Print Assumptions C05_replace_by_closure.
 Print Assumptions C05_replace_by_minimal.
 Print Assumptions C05_minimal_has_no_implied_duplicates.
 Print Assumptions C05_edges_use_closure.
+Print Assumptions C05_verdict_invariant_under_rewriting.
+Print Assumptions C05_verdict_invariant_reorder_duplicate.
+Print Assumptions C05_verdict_invariant_closure.
+Print Assumptions C05_verdict_invariant_minimal.
